@@ -4,7 +4,6 @@ import os
 import pathlib
 import random
 import shutil
-import subprocess
 import threading
 import time
 from typing import Any, Dict, List, Optional, Sequence, Set, Tuple
@@ -618,7 +617,7 @@ def main(argv) -> int:
         job["refs"] = refs
         job["deadline"] = chk.t0 + budget * share
         job["min_slice"] = (
-            {"explore": 25.0, "sample": 12.0, "crash": 20.0}[job["type"]] if quick else 45.0
+            {"explore": 25.0, "sample": 12.0, "crash": 20.0}[job["type"]] if quick else 30.0
         )
         jobs.append(job)
 
@@ -640,21 +639,24 @@ def main(argv) -> int:
     if quick:
         add({"type": "explore", "kind": "bounded", "config": "2-writers-same-model/chunks=3/preemptions<=2",
              "specs": [(a, 3), (a, 3)], "max_preemptions": 2}, 0.7)
+        add({"type": "explore", "kind": "bounded", "config": "2-writers-same-model/chunks=2/preemptions<=3",
+             "specs": [(a, 2), (a, 2)], "max_preemptions": 3}, 0.7)
         add({"type": "explore", "kind": "bounded", "config": "2-writers-two-models/chunks=2/preemptions<=2",
              "specs": [(a, 2), (b, 2)], "max_preemptions": 2}, 0.7)
         add({"type": "explore", "kind": "bounded", "config": "3-workers-same-model/chunks=2/preemptions<=1",
              "specs": [(a, 2), (a, 2), (a, 2)], "max_preemptions": 1}, 0.7)
-        n_sample_jobs, n_per = 6, 60
+        n_sample_jobs, n_per = 6, 100
     else:
-        depth = 5
-        for config, specs in (
-            ("2-writers-same-model/chunks=2/exhaustive", [(a, 2), (a, 2)]),
-            ("2-writers-two-models/chunks=2/exhaustive", [(a, 2), (b, 2)]),
-        ):
-            for bits in range(2 ** depth):
-                prefix = [((bits >> i) & 1, "g") for i in range(depth)]
-                add({"type": "explore", "kind": "exhaustive", "config": config,
-                     "specs": specs, "prefix": prefix}, 0.85)
+        # the complete schedule tree of two writers of one model, split over the
+        # 2**depth prefixes of the first decisions (both writers have >= depth steps)
+        depth = 7
+        for bits in range(2 ** depth):
+            prefix = [((bits >> i) & 1, "g") for i in range(depth)]
+            add({"type": "explore", "kind": "exhaustive",
+                 "config": "2-writers-same-model/chunks=2/exhaustive",
+                 "specs": [(a, 2), (a, 2)], "prefix": prefix}, 0.85)
+        add({"type": "explore", "kind": "bounded", "config": "2-writers-two-models/chunks=2/preemptions<=3",
+             "specs": [(a, 2), (b, 2)], "max_preemptions": 3}, 0.85)
         add({"type": "explore", "kind": "bounded", "config": "2-writers-same-model/chunks=4/preemptions<=3",
              "specs": [(a, 4), (a, 4)], "max_preemptions": 3}, 0.85)
         add({"type": "explore", "kind": "bounded", "config": "3-workers-same-model/chunks=2/preemptions<=2",
@@ -737,7 +739,7 @@ def main(argv) -> int:
     for key, ref in stress_refs.items():
         if ref["rc"] != 0:
             chk.harness_error(f"uncached reference CLI run failed for {key}")
-    rounds = chk.pick(2, 12)
+    rounds = chk.pick(3, 12)
     stress_rng = chk.rng("stress")
     for index in range(rounds):
         if time.time() > chk.t0 + budget * 0.95 and index >= 1:
@@ -763,7 +765,7 @@ def main(argv) -> int:
     if not quick:
         # ``exhaustive`` is claimed only when every enumeration ran to its end: all
         # crash points of the traced sequences and the complete schedule trees of
-        # the two 2-writer configurations (the bounded / sampled legs are extras).
+        # the 2-writer configuration (the bounded / sampled legs are extras).
         exhaustive_configs = [c for c in explorations if c.endswith("/exhaustive")]
         chk.exhaustive = bool(exhaustive_configs) and all(
             explorations[c]["complete"] for c in exhaustive_configs
